@@ -163,6 +163,15 @@ def apply_op(f, op):
     elif k == "cds":
         kw = {a: tuple(b) if isinstance(b, list) else b for a, b in op[3].items()}
         f.create_dataset(op[1], data=mkval(op[2]) if op[2] is not None else None, **kw)
+    elif k == "cip":
+        n = f[op[1]]
+        if not is_ds(n):
+            raise TypeError("not a dataset")
+        if hasattr(n, "copy_into_patch"):
+            try:
+                n.copy_into_patch()
+            except ValueError:
+                pass  # already in the latest container / no patch open: nothing to do
     elif k == "copy":
         f.copy(op[1], op[2])
     elif k == "move":
